@@ -344,15 +344,42 @@ class Runner {
     fflush(stderr);
     for (int w = 0; w < W; w++) pids[w] = spawn(fam, check, w, 0, 0);
     int live = W;
+    // watchdog: a worker that stays on ONE case for longer than the hang limit (a spin on a lock that is never
+    // released, an endless loop on corrupted data) is killed and the case recorded as a hang; the limit is far above
+    // the longest case of any family on a loaded machine (VERIF_HANG_S overrides it)
+    const double hang_s = getenv("VERIF_HANG_S") ? atof(getenv("VERIF_HANG_S")) : 600.0;
+    std::vector<uint64_t> last_idx(W, (uint64_t)-1);
+    std::vector<double> last_change(W, now_s());
+    std::vector<char> hung(W, 0);
     while (live > 0) {
       int st = 0;
-      pid_t p = waitpid(-1, &st, 0);
+      pid_t p = waitpid(-1, &st, WNOHANG);
       if (p < 0) break;
+      if (p == 0) {
+        usleep(20000);
+        double t = now_s();
+        for (int k = 0; k < W; k++) {
+          if (pids[k] < 0 || hung[k]) continue;
+          uint64_t cur = sh_->slot[k].active.load() ? sh_->slot[k].idx.load() : (uint64_t)-2;
+          if (cur != last_idx[k]) {
+            last_idx[k] = cur;
+            last_change[k] = t;
+          } else if (cur != (uint64_t)-2 && t - last_change[k] > hang_s) {
+            hung[k] = 1;
+            kill(pids[k], SIGKILL);
+          }
+        }
+        continue;
+      }
       int w = -1;
       for (int k = 0; k < W; k++)
         if (pids[k] == p) w = k;
       if (w < 0) continue;
       bool clean = WIFEXITED(st) && WEXITSTATUS(st) == 0;
+      const bool was_hung = hung[w] != 0;
+      hung[w] = 0;
+      last_idx[w] = (uint64_t)-1;
+      last_change[w] = now_s();
       if (clean) {
         live--;
         pids[w] = -1;
@@ -364,7 +391,7 @@ class Runner {
       uint64_t cend = sh_->slot[w].chunk_end.load();
       bool active = sh_->slot[w].active.load() != 0;
       fr.crashes++;
-      record_crash(fam, active ? (alt ? alt : idx) : (uint64_t)-1, st, fr.crashes <= 4);
+      record_crash(fam, active ? (alt ? alt : idx) : (uint64_t)-1, st, fr.crashes <= 4, was_hung ? hang_s : 0);
       if (fr.crashes > 40) {
         sh_->stop = 1;
         fr.exhaustive = false;
@@ -448,7 +475,7 @@ class Runner {
   std::vector<FamilyResult>& results() { return results_; }
 
  private:
-  void record_crash(const Family& fam, uint64_t idx, int st, bool detail) {
+  void record_crash(const Family& fam, uint64_t idx, int st, bool detail, double hung_after = 0) {
     sh_->viol_total.fetch_add(1);
     {
       int ci = -1;
@@ -470,7 +497,9 @@ class Runner {
     v.idx = idx;
     snprintf(v.kind, sizeof v.kind, "crash");
     snprintf(v.cls, sizeof v.cls, "crash");
-    if (WIFSIGNALED(st))
+    if (hung_after > 0)
+      snprintf(v.detail, sizeof v.detail, "HANG: the worker made no progress on this case for %.0f s (endless loop / lock never released) and was killed", hung_after);
+    else if (WIFSIGNALED(st))
       snprintf(v.detail, sizeof v.detail, "worker killed by signal %d on this case", WTERMSIG(st));
     else
       snprintf(v.detail, sizeof v.detail, "worker exited with status %d on this case (sanitizer report/assert)", WEXITSTATUS(st));
